@@ -40,7 +40,7 @@ pub fn program(maxlen: usize) -> BoxedStrategy<Vec<u8>> {
     }).boxed()
 }
 
-fn decoder_labels(req: &Req, resp: &Resp) -> Vec<&'static str> {
+pub fn decoder_labels(req: &Req, resp: &Resp) -> Vec<&'static str> {
     let b: [u8; 32] = req.a[0][..].try_into().unwrap();
     let mut l = vec![];
     let mut c = b;
@@ -67,7 +67,7 @@ fn decoder_labels(req: &Req, resp: &Resp) -> Vec<&'static str> {
     l
 }
 
-fn history_labels(req: &Req, _resp: &Resp) -> Vec<&'static str> {
+pub fn history_labels(req: &Req, _resp: &Resp) -> Vec<&'static str> {
     let mut l = vec![];
     if let Some((steps, _)) = crate::mops::edwards::history(&req.a[0], &req.a[1]) {
         let mut regs: Vec<Aff> = (0..6).map(|i| Aff::decompress(&req.a[0][32 * i..32 * i + 32].try_into().unwrap()).unwrap()).collect();
@@ -99,6 +99,14 @@ fn history_labels(req: &Req, _resp: &Resp) -> Vec<&'static str> {
         if steps.iter().any(|s| !s.is_torsion_free()) { l.push("torsion-carrying-point"); }
     }
     l
+}
+
+/// public-API-only variant of the C03 requests (for the cross-configuration streams)
+pub fn public_strategy() -> BoxedStrategy<Req> {
+    prop_oneof![
+        3 => edwards_encoding().prop_map(|(_, e)| Req::new("ed.decompress", vec![e.to_vec()])),
+        2 => (registers(), program(16)).prop_map(|(r, p)| Req::new("ed.history", vec![r, p])),
+    ].boxed()
 }
 
 pub const RULE_DEC: &str = "Edwards decoder on 32-byte strings by class (valid points incl. torsion/mixed order, the 2x19 non-canonical y, y=+-1/0 with either sign bit, sign-flipped, off-curve, special bit patterns, uniform); oracle: model square test on (y^2-1)/(dy^2+1), re-compression equals the canonical encoding with the requested sign, coordinates via hook satisfy the curve equation and XY=ZT; non-trivial = non-canonical y, rejected, x=0, small/mixed order or special bit pattern";
